@@ -349,6 +349,30 @@ func TestHistory(t *testing.T) {
 					c.Violation("cbor-error", "IntegrityBlock.CborBytes", "%v", berr)
 				}
 				checkBlock(c, bb, hash, good, "after signing")
+				if c.Chance("annotateInPlace", 1, 6) {
+					// the caller annotates the newest signature's attribute map in place (on a copy of
+					// the entry, so that the real block stays as signed) and serializes that variant:
+					// the bytes are those of the annotated block, not of anything remembered
+					top := *blk.SignatureStack[0]
+					top.SignatureAttributes = integrityblock.SignatureAttributesMap{}
+					for k, v := range blk.SignatureStack[0].SignatureAttributes {
+						top.SignatureAttributes[k] = v
+					}
+					top.SignatureAttributes["zz-note"] = []byte("annotated")
+					variant := *blk
+					variant.SignatureStack = append([]*integrityblock.IntegritySignature{&top}, blk.SignatureStack[1:]...)
+					vb, verr := variant.CborBytes()
+					if stack, _, derr := refib.DecodeBlock(bb); derr == nil && len(stack) > 0 {
+						m := map[string][]byte{"zz-note": []byte("annotated")}
+						for k, v := range stack[0].Attrs {
+							m[k] = v
+						}
+						stack[0].Attrs = m
+						if verr != nil || !bytes.Equal(vb, refib.EncodeBlock(stack)) {
+							c.Violation("stale-output", "IntegrityBlock.CborBytes", "a block whose newest entry was annotated serializes to bytes that are not the annotated block's (err=%v)", verr)
+						}
+					}
+				}
 				earlierBlocks = append(earlierBlocks, kept{bb, append([]byte(nil), bb...)})
 				keptCopies = append(keptCopies, keptCopy{*blk, append([]byte(nil), bb...), hash, good})
 			}
